@@ -229,6 +229,7 @@ def gen_inputs(ctx, seeds):
         out.append(("e", t.encode(), "template-emb"))
         out.append(("n", t.encode(), "template"))
     out += boundary_grid()
+    out += [(m, b, "multiline-grid") for m, b, _ in LC.multiline_grid()]
     # invalid UTF-8 / CRLF at every position of the templates (deterministic sweep)
     sweep = [b"\xff", b"\xe2\x82"] if ctx.quick else BAD_BYTES
     for t in MODE_TEMPLATES + EMB_TEMPLATES:
